@@ -191,12 +191,17 @@ package layer4
 
 // Hand-off to the wrapped listener (C13): exactly one value is sent on connChan, the hijack
 // sentinel is returned, and the connection's buffer is marked as escaped.
+//@ ghostfn tlsstates(conn *Connection) []*tls.ConnectionState = ctxval(conn.Context, VarsCtxKey).(map[string]any)["tls_connection_states"].([]*tls.ConnectionState)
 //@ func (l *listener) pipeConnection(conn *Connection) (err error)
 //@ requires l != nil && l.connChan != nil && wfcx(conn)
 //@ requires[inv] isnil(ctxval(conn.Context, VarsCtxKey).(map[string]any)["tls_connection_states"]) || istype(ctxval(conn.Context, VarsCtxKey).(map[string]any)["tls_connection_states"], []*tls.ConnectionState)
 //@ safety C13 C08
 //@ ensures[C13] err == errHijacked
 //@ ensures[C13] sends(l.connChan) == old(sends(l.connChan)) + 1
+// what is delivered: the connection itself, or, after TLS termination, a wrapper over it that
+// exposes the state of the innermost (last recorded) TLS session
+//@ ensures[C13] (isnil(ctxval(conn.Context, VarsCtxKey).(map[string]any)["tls_connection_states"]) || len(tlsstates(conn)) == 0) ==> lastsent(l.connChan) == conn
+//@ ensures[C13] !isnil(ctxval(conn.Context, VarsCtxKey).(map[string]any)["tls_connection_states"]) && len(tlsstates(conn)) > 0 ==> istype(lastsent(l.connChan), *tlsConnection) && lastsent(l.connChan).(*tlsConnection).Conn == conn && lastsent(l.connChan).(*tlsConnection).connState == tlsstates(conn)[len(tlsstates(conn))-1]
 //@ ensures[ghost] escaped(arr(conn.buf))
 
 //@ func (l *listener) handle(conn net.Conn)
